@@ -556,6 +556,66 @@ func checkCiphertextFieldSlots(c *Ctx, rule string) {
 // passphrase. An extended key whose serialisation is sealed under the public class must therefore be a
 // neutered key: the result of Neuter(), or a parameter that the receiving function itself tests with IsPrivate()
 // (rejecting or neutering a private key), or a parameter of a function all of whose callers pass such a key.
+// privateEdgeReachesUse: x.IsPrivate() was called (test); some use of x other than x.Neuter() / x.IsPrivate() lies past
+// an edge on which the answer was true (or the answer does not steer a branch at all).
+func privateEdgeReachesUse(x ssa.Value, test *ssa.Call) bool {
+	fn := test.Parent()
+	steered := false
+	for _, b := range fn.Blocks {
+		iff, ok := b.Instrs[len(b.Instrs)-1].(*ssa.If)
+		if !ok {
+			continue
+		}
+		inner, neg := unwrapNot(iff.Cond)
+		if inner != ssa.Value(test) {
+			continue
+		}
+		steered = true
+		si := 0
+		if neg {
+			si = 1
+		}
+		succ := b.Succs[si]
+		reach := map[*ssa.BasicBlock]bool{}
+		var walk func(bb *ssa.BasicBlock)
+		walk = func(bb *ssa.BasicBlock) {
+			if reach[bb] {
+				return
+			}
+			reach[bb] = true
+			for _, s := range bb.Succs {
+				walk(s)
+			}
+		}
+		walk(succ)
+		for _, r := range *x.Referrers() {
+			switch u := r.(type) {
+			case *ssa.Call:
+				if n := calleeShort(&u.Call); (n == "Neuter" || n == "IsPrivate") && len(u.Call.Args) > 0 && u.Call.Args[0] == x {
+					continue
+				}
+			case *ssa.Phi:
+				for i, e := range u.Edges {
+					if e != x {
+						continue
+					}
+					pred := u.Block().Preds[i]
+					if (pred == b && u.Block() == succ) || reach[pred] {
+						return true
+					}
+				}
+				continue
+			case *ssa.DebugRef:
+				continue
+			}
+			if r.Block() != nil && reach[r.Block()] {
+				return true
+			}
+		}
+	}
+	return !steered
+}
+
 func checkPublicClassPlaintext(c *Ctx, rule string) {
 	p := c.P
 	var keyIsPublic func(k ssa.Value, depth int, seen map[ssa.Value]bool) []string
@@ -579,10 +639,14 @@ func checkPublicClassPlaintext(c *Ctx, rule string) {
 			case *ssa.Parameter:
 				fn := x.Parent()
 				// the function itself tests the key it was given for privacy (and rejects or neuters it)
+				// — "looks at it": past the edge on which IsPrivate answered true the key itself is used for nothing but its
+				// Neuter() (a test whose private edge still reaches a use of the key decides nothing)
 				tested := false
 				for _, ci := range callsOf(fn) {
 					if calleeShort(ci.Common()) == "IsPrivate" && len(ci.Common().Args) > 0 && stripConv(ci.Common().Args[0]) == ssa.Value(x) {
-						tested = true
+						if tc, isCall := ci.(*ssa.Call); isCall {
+							tested = !privateEdgeReachesUse(x, tc)
+						}
 					}
 				}
 				if tested {
